@@ -68,7 +68,7 @@ func handlerFor(code uint) *dochandler.DocumentHandler {
 	}
 	pc := wire.NewClient(parserFor(code))
 	proc := processor.New("verif", wire.NewOpStore(), pc)
-	handlers[code] = dochandler.New(ns, nil, pc, noWriter{}, proc, wire.DocMetrics{})
+	handlers[code] = dochandler.New(ns, []string{aliasNS}, pc, noWriter{}, proc, wire.DocMetrics{})
 	return handlers[code]
 }
 
@@ -385,10 +385,13 @@ func replayLF(raw json.RawMessage) (string, string) {
 	return evalLF(&c)
 }
 
+// aliasNS is a second namespace the long-lived handlers answer under.
+const aliasNS = "did:alias"
+
 const b64alphabet = "ABCDEFGHIJKLMNOPQRSTUVWXYZabcdefghijklmnopqrstuvwxyz0123456789-_"
 
 func TestLongFormAlterations(t *testing.T) {
-	ev.Rule(chkLongForm, "rapid: for a drawn create request, the canonical long-form DID (control: must resolve on an empty store) and alterations (one time in two resolved right after the same long-lived handler resolved the genuine DID): a single character of the encoded segment substituted (drawn position and replacement; separately the last character, whose unused trailing bits make several spellings decode to the same bytes), a CR / LF / space / = / tab inserted at a drawn position, a single character of the suffix substituted, one member of suffix data or delta altered / removed / added and re-encoded canonically, the unchanged value in a non-canonical encoding (member order, whitespace, escapes), suffix of another create; one alteration in four additionally carries label / domain hint segments between method and suffix; oracle: resolves iff canonical, suffix == hash(suffix data), delta matches delta hash; non-trivial = an alteration")
+	ev.Rule(chkLongForm, "rapid: for a drawn create request, the canonical long-form DID (control: must resolve on an empty store) and alterations (one time in two resolved right after the same long-lived handler resolved the genuine DID): a single character of the encoded segment substituted (drawn position and replacement; separately the last character, whose unused trailing bits make several spellings decode to the same bytes), a CR / LF / space / = / tab inserted at a drawn position, a single character of the suffix substituted, one member of suffix data or delta altered / removed / added and re-encoded canonically, the unchanged value in a non-canonical encoding (member order, whitespace, escapes), suffix of another create; one alteration in four additionally carries label / domain hint segments between method and suffix, one in four is asked for under the handler's alias namespace; oracle: resolves iff canonical, suffix == hash(suffix data), delta matches delta hash; non-trivial = an alteration")
 	ev.Rapid(t, chkLongForm, 500, 5000, func(t *rapid.T) {
 		cr := genCreate(t)
 		good := cr.LongForm(ns)
@@ -502,6 +505,12 @@ func TestLongFormAlterations(t *testing.T) {
 			hint := rapid.SampledFrom([]string{"interim", "example.com:interim", "uAAA", "ipfs:uEiAbc"}).Draw(t, "hint")
 			c.DID = ns + ":" + hint + ":" + strings.TrimPrefix(c.DID, ns+":")
 			variant += "+hint"
+			c.Note = variant
+		}
+		if variant != "control" && rapid.IntRange(0, 3).Draw(t, "aliased") == 0 {
+			// the same alteration asked for under the handler's alias namespace
+			c.DID = aliasNS + ":" + strings.TrimPrefix(c.DID, ns+":")
+			variant += "+alias"
 			c.Note = variant
 		}
 		if !strings.HasPrefix(variant, "control") && rapid.Bool().Draw(t, "handlerKnowsGenuine") {
